@@ -86,6 +86,10 @@ def rand_funcs(b, names, rng, k, hold=True):
     return out
 
 
+def _same(x):
+    return x
+
+
 def churn(b, names, rng):
     """Give the manager a HISTORY before anything is dumped: functions built
     and dropped, a collection (low node numbers become free while higher ones
@@ -172,7 +176,20 @@ def c11_task(shard, tid, seed, n, src_order, dst_order, mode):
                 elif route == '_copy.copy_bdd':
                     keep = [_copy.copy_bdd(f, dst_a) for f in fs]
                 else:
-                    keep = _copy.copy_bdds_from(fs, dst_a)
+                    form = rng.choice(['list', 'tuple', 'generator', 'iterator', 'map'])
+                    ev.d['info']['roots_form'] = form
+                    if form == 'list':
+                        arg = list(fs)
+                    elif form == 'tuple':
+                        arg = tuple(fs)
+                    elif form == 'generator':
+                        arg = (f for f in fs)
+                    elif form == 'iterator':
+                        arg = iter(fs)
+                    else:
+                        arg = map(_same, fs)
+                    keep = _copy.copy_bdds_from(arg, dst_a)
+                    del arg          # the wrappers it holds must die with `fs`
                 rs = [int(g) for g in keep]
                 del fs
         except Exception as e:   # noqa
@@ -557,8 +574,10 @@ def c12_trace(tid, rng, work, fps):
         fps.add(('pickle', n, tuple(src_order), target, levels, as_dict, k))
     # ---------- pickle without naming roots ----------
     src = mk_bdd(src_order)
+    aged = churn(src, base, rng) if rng.random() < 0.7 else []
+    src_order = order_of(src)
     funcs = rand_funcs(src, base, rng, 2)
-    src_ext = ext_of(funcs)
+    src_ext = ext_of(funcs + aged)
     dst = _bdd.BDD()
     fn = os.path.join(work, 'g_%d.p' % tid)
     ev = Ev('io', 'pickle_no_roots', names, src, src_ext, dst, {}, must_accept=True,
@@ -585,6 +604,24 @@ def c12_trace(tid, rng, work, fps):
     except Exception as e:   # noqa
         exc = type(e).__name__
     events.append(ev.done(src, src_ext, dst, src_ext, [], [], exc))
+    if not exc:
+        # ... and usable: build a new function in it (copy one over from a scratch manager)
+        ev2 = Ev('io', 'manager_then_build', names, src, src_ext, dst, src_ext, must_accept=True,
+                 may_declare=False)
+        exc2, r2, u2 = '', 0, 0
+        try:
+            tmpm = mk_bdd(src_order)
+            u2 = rand_funcs(tmpm, base, rng, 1)[0]
+            r2 = _bdd.copy_bdd(u2, tmpm, dst)
+            dst.incref(r2)
+        except Exception as e:   # noqa
+            exc2 = type(e).__name__
+        d2 = dict(src_ext)
+        if not exc2:
+            d2[abs(r2)] = d2.get(abs(r2), 0) + 1
+        e2 = ev2.done(tmpm, ext_of([u2]), dst, d2, [u2], [r2] if not exc2 else [], exc2)
+        e2['src'] = e2['src_post']      # the function comes from the scratch manager
+        events.append(e2)
     try:
         for u in list(dst._ref):
             dst._ref[u] = 0
